@@ -67,7 +67,7 @@ def r17a(ctx, P):
             for c in slc.consts(s["rv"]["ops"][0]):
                 nm = nm or const_str(c)
             fl = slc.fields(s["rv"]["ops"][1]) & fset
-            if nm and len(fl) == 1:
+            if len(fl) == 1:
                 hashed[list(fl)[0]] = (nm, Site(col, b, i).loc())
     # (3) compared: calls of the verify closure with a 4-tuple (label, path, checksums.get(name), data)
     compared = {}
@@ -102,14 +102,16 @@ def r17a(ctx, P):
     ctx.floor(rid, min(len(written), len(hashed), len(compared), len(removed)), 5, "SegmentPaths fields bound in each of the four places")
     for fl in fields:
         parts = {"written": fl in written, "hashed": fl in hashed, "compared": fl in compared, "removed": fl in removed and has_remove}
-        names_ok = fl in hashed and fl in compared and hashed[fl][0] == compared[fl][0]
+        names_ok = fl in hashed and fl in compared and hashed[fl][0] is not None and hashed[fl][0] == compared[fl][0]
         ok = all(parts.values()) and names_ok
         ctx.ob(rid, "%s:SegmentPaths.%s" % (rid, fl), ok,
                "segment file `%s`: written, hashed as '%s', compared as '%s', removed" % (fl, hashed[fl][0], compared[fl][0]) if ok else
                "segment file `%s` is not handled consistently: %s%s" % (
                    fl, {k: v for k, v in parts.items()},
                    "" if names_ok or fl not in hashed or fl not in compared else
-                   " (checksum name '%s' at commit vs '%s' at open)" % (hashed[fl][0], compared[fl][0])),
+                   (" (checksum name '%s' at commit vs '%s' at open)" % (hashed[fl][0], compared[fl][0]) if hashed[fl][0] and compared[fl][0] else
+                    " (the checksum key is not a constant label: a key derived from the segment path stops matching once the index is "
+                    "opened under another directory, and verification is then silently skipped)")),
                (compared.get(fl) or hashed.get(fl) or (None, None))[1] or written.get(fl))
     # the comparison itself: the verify closure compares checksum(bytes) with the expected value and fails on mismatch
     for c in P.closures_of(ver, recursive=False):
